@@ -240,23 +240,23 @@ func (m mut) kind() string {
 // ---------------------------------------------------------------- the recovered store
 
 type recov struct {
-	initErr        string
-	first, last    uint64
-	lf, ll         uint64
-	hs             raftpb.HardState
-	hsErr          string
-	snap           raftpb.Snapshot
-	snapErr        string
-	si, st         uint64
-	aLo, aHi       uint64
-	a              []raftpb.Entry
-	aErr           string
-	bLo, bHi       uint64
-	b              []raftpb.Entry
-	bErr           string
-	terms          [5]string
-	files          string
-	answer         string
+	initErr     string
+	first, last uint64
+	lf, ll      uint64
+	hs          raftpb.HardState
+	hsErr       string
+	snap        raftpb.Snapshot
+	snapErr     string
+	si, st      uint64
+	aLo, aHi    uint64
+	a           []raftpb.Entry
+	aErr        string
+	bLo, bHi    uint64
+	b           []raftpb.Entry
+	bErr        string
+	terms       [5]string
+	files       string
+	answer      string
 }
 
 func termAns(rds *raftlog.RaftDiskStorage, i uint64) string {
